@@ -16,9 +16,16 @@ Streams (DESIGN 3.2):
           (theorem cif_ops_denote); the SYMM operators as written in the file must be among them
   atoms   atom loop / ADP loop vs the non-Q-peak atoms of the description (theorems cif_atoms_nonq,
           cif_adp_aniso, adp_labels_are_the_uani_rows) and vs the model's loops
+Histories (theorem hist_export_reflects_current): besides "read one file, export once" a case can be a history on
+ONE Shelxfile object - read (string / file / reload), export, then rounds of {read another file with the same
+object | edits through the API: atom.element (old or new SFAC element), atom.sof, set_uvals, to_isotropic,
+delete, shx.Z, shx.unit.values | nothing | a second object reading and exporting in between}, each followed by an
+export. EVERY export goes through all four streams against the description of the state the object is in at that
+moment; signatures of failures in later exports end in |after=<reread|edit|export|other-object>.
 Only what the property states is observed: R1/wR2/GooF, space-group name, formula weight, volume, the creation
 date and the textual form of numbers and operators are not compared.
 """
+import copy
 import os
 import re
 import shutil
@@ -318,6 +325,69 @@ def make_case(rng, setting=None, flags=None):
                 titl=rng.choice(['verif', 'Mo_k7 test', 'p21c in P2(1)/c', 'x']), atoms=atoms, qpeaks=qpeaks)
 
 
+def random_edit(rng, state):
+    """one API edit that is valid for the described state"""
+    kinds = ['Z', 'unit']
+    if state['atoms']:
+        kinds += ['element', 'element', 'sof', 'uvals', 'to_iso', 'delete']
+    kind = rng.choice(kinds)
+    if kind == 'Z':
+        return dict(op='edit', kind='Z', z=rng.choice([z for z in [1, 2, 3, 4, 6, 8, 12] if z != z_now(state)]))
+    if kind == 'unit':
+        return dict(op='edit', kind='unit', j=rng.randrange(len(state['unit'])), v=float(rng.choice([3, 5, 9, 14, 20, 28, 1100])))
+    i = rng.randrange(len(state['atoms']))
+    if kind == 'element':
+        up = [e.upper() for e in state['sfac']]
+        if rng.random() < 0.5 and len(up) > 1:
+            el = rng.choice([e for k, e in enumerate(state['sfac']) if k + 1 != state['atoms'][i]['sfac']])
+        else:
+            el = rng.choice([e for e in gen.ELEMENTS if e.upper() not in up])
+        return dict(op='edit', kind='element', i=i, el=el)
+    if kind == 'sof':
+        nfv = len(state['fvars'])
+        code = rng.choice([11.0, 10.5, 10.25] + ([10.0 * m * sg + 1 for m in range(2, nfv + 1) for sg in (1, -1)] if nfv > 1 else []))
+        return dict(op='edit', kind='sof', i=i, code=float(code))
+    if kind == 'uvals':
+        if rng.random() < 0.6:
+            u = [round(rng.uniform(0.01, 0.09), 5) for _ in range(3)] + [round(rng.uniform(-0.02, 0.02), 5) or 0.00123 for _ in range(3)]
+        else:
+            u = [round(rng.uniform(0.01, 0.09), 5)]
+        return dict(op='edit', kind='uvals', i=i, u=u)
+    return dict(op='edit', kind=kind, i=i)
+
+
+def make_history(rng, rounds=None, flags=None):
+    """a history on one Shelxfile object (sometimes with a second object in between): read, export, then rounds of
+    {read another file with the same object | edits through the API | nothing | activity of another object}, each
+    followed by an export; every export is compared with the description of the state the object is in then"""
+    first = make_case(rng, flags=flags)
+    steps = [dict(op='read', case=first, via=rng.choice(['string', 'file'])), dict(op='export')]
+    state = copy.deepcopy(first)
+    if rounds is None:
+        rounds = [rng.choices(['reread', 'edit', 'again', 'other'], [4, 4, 1, 2])[0] for _ in range(rng.randint(1, 3))]
+    for r in rounds:
+        if r == 'reread':
+            nxt = make_case(rng, flags=flags)
+            steps.append(dict(op='read', case=nxt, via=rng.choice(['string', 'file', 'reload'])))
+            state = copy.deepcopy(nxt)
+        elif r == 'edit' or r.startswith('edit:'):
+            for _ in range(1 if ':' in r else rng.randint(1, 3)):
+                ed = random_edit(rng, state)
+                if ':' in r:
+                    for _try in range(50):
+                        if ed['kind'] == r.split(':')[1]:
+                            break
+                        ed = random_edit(rng, state)
+                steps.append(ed)
+                state = edit_state(state, ed)
+        elif r == 'other':
+            steps.append(dict(op='read', case=make_case(rng, flags=flags), via='string', obj=1))
+            if rng.random() < 0.7:
+                steps.append(dict(op='export', obj=1))
+        steps.append(dict(op='export'))
+    return dict(history=steps)
+
+
 def atom_lines(a, force_sof=None):
     sof = 11.0 if a.get('part_sof') is not None else a['code']
     head = f'{a["name"]:<5}{a["sfac"]:>2} {a["xyz"][0]:>11.6f} {a["xyz"][1]:>11.6f} {a["xyz"][2]:>11.6f} {sof:>11.5f}'
@@ -408,14 +478,8 @@ def tmpdir():
     return _TMP
 
 
-def observe_impl(case):
-    from shelxfile import Shelxfile
-    text = render(case)
-    shx = Shelxfile()
-    try:
-        shx.read_string(text)
-    except Exception as e:
-        return dict(error=f'read_string raised {type(e).__name__}: {e}')
+def observe(shx, k=0):
+    """what the property talks about, for the CURRENT state of the object: its operator list and the CIF it writes"""
     obs = dict()
     try:
         obs['names'] = [a.name for a in shx.atoms]
@@ -426,7 +490,7 @@ def observe_impl(case):
         obs['symmcards'] = ops
     except Exception as e:
         return dict(error=f'model not readable: {type(e).__name__}: {e}')
-    path = os.path.join(tmpdir(), 'out.cif')
+    path = os.path.join(tmpdir(), f'out{k}.cif')
     if os.path.exists(path):
         os.unlink(path)
     try:
@@ -442,6 +506,133 @@ def observe_impl(case):
         obs['raise'] = 'NoFile'
         obs['raise_msg'] = str(e)
     return obs
+
+
+def atom_label(a):
+    return a['name'] + (f'_{a["resi"]}' if a['resi'] else '')
+
+
+def edit_state(state, ed, shx=None):
+    """the description after an API edit (by construction; only the UNIT number the library invents for a new
+    SFAC element is read from the object, what that number is belongs to C04)"""
+    st = copy.deepcopy(state)
+    kind = ed['kind']
+    if kind == 'element':
+        up = [e.upper() for e in st['sfac']]
+        if ed['el'].upper() in up:
+            st['atoms'][ed['i']]['sfac'] = up.index(ed['el'].upper()) + 1
+        else:
+            st['sfac'].append(ed['el'])
+            st['unit'].append(float(shx.unit.values[-1]) if shx is not None else 1.0)
+            st['atoms'][ed['i']]['sfac'] = len(st['sfac'])
+    elif kind == 'sof':
+        st['atoms'][ed['i']]['code'] = ed['code']
+        st['atoms'][ed['i']]['part_sof'] = None
+    elif kind == 'uvals':
+        st['atoms'][ed['i']]['u'] = list(ed['u'])
+    elif kind == 'to_iso':
+        st['atoms'][ed['i']]['u'] = [0.04]
+    elif kind == 'delete':
+        del st['atoms'][ed['i']]
+    elif kind == 'Z':
+        st['z_now'] = ed['z']
+    elif kind == 'unit':
+        st['unit'][ed['j']] = ed['v']
+    else:
+        raise ValueError(kind)
+    return st
+
+
+def edit_impl(shx, state, ed):
+    """the same edit through the library's API"""
+    kind = ed['kind']
+    if kind in ('element', 'sof', 'uvals', 'to_iso', 'delete'):
+        atom = shx.atoms.get_atom_by_name(atom_label(state['atoms'][ed['i']]))
+        if atom is None:
+            raise LookupError(f'atom {atom_label(state["atoms"][ed["i"]])} not found')
+        if kind == 'element':
+            atom.element = ed['el']
+        elif kind == 'sof':
+            atom.sof = ed['code']
+        elif kind == 'uvals':
+            u = list(ed['u'])
+            atom.set_uvals(u if len(u) == 6 else [u[0], 0.0, 0.0, 0.0, 0.0, 0.0])
+        elif kind == 'to_iso':
+            atom.to_isotropic()
+        else:
+            atom.delete()
+    elif kind == 'Z':
+        shx.Z = ed['z']
+    elif kind == 'unit':
+        shx.unit.values[ed['j']] = ed['v']
+    else:
+        raise ValueError(kind)
+
+
+def steps_of(top):
+    if 'history' in top:
+        return top['history']
+    return [dict(op='read', case=top, via='string'), dict(op='export')]
+
+
+def run_history(top):
+    """-> frames, one per export: dict(top=<replayable prefix>, case=<description of the CURRENT state>, obs, after)"""
+    from shelxfile import Shelxfile
+    steps = steps_of(top)
+    objs, states, paths, since, exported = {}, {}, {}, {}, {}
+    frames = []
+    for k, st in enumerate(steps):
+        o = st.get('obj', 0)
+        prefix = top if 'history' not in top else dict(history=steps[:k + 1])
+        try:
+            if st['op'] == 'read':
+                shx = objs.setdefault(o, Shelxfile())
+                text = render(st['case'])
+                via = st.get('via', 'string')
+                if via == 'reload' and o not in paths:
+                    via = 'file'
+                if via == 'string':
+                    shx.read_string(text)
+                    paths.pop(o, None)
+                else:
+                    path = paths.get(o) if via == 'reload' else os.path.join(tmpdir(), f'obj{o}_{k}.res')
+                    with open(path, 'w') as f:
+                        f.write(text)
+                    if via == 'reload':
+                        shx.reload()
+                    else:
+                        shx.read_file(path)
+                    paths[o] = path
+                since.setdefault(o, []).append('reread' if o in states else 'read')
+                states[o] = copy.deepcopy(st['case'])
+                for other in since:
+                    if other != o and other in exported:
+                        since[other].append('other-object')
+            elif st['op'] == 'edit':
+                edit_impl(objs[o], states[o], st)
+                states[o] = edit_state(states[o], st, objs[o])
+                since[o].append('edit:' + st['kind'])
+            elif st['op'] == 'export':
+                ev = [e for e in since.get(o, []) if e != 'read']
+                after = '+'.join(sorted(set(ev))) if ev else ('export' if o in exported else '')
+                frames.append(dict(top=prefix, case=copy.deepcopy(states[o]), obs=observe(objs[o], k), after=after, pos=k))
+                exported[o] = True
+                since[o] = []
+                for other in since:
+                    if other != o and other in exported:
+                        since[other].append('other-object')
+            else:
+                raise ValueError(st['op'])
+        except Exception as e:
+            frames.append(dict(top=prefix, case=copy.deepcopy(states.get(o) or st.get('case')), after='', pos=k,
+                               obs=dict(error=f'step {k} ({st["op"]} {st.get("kind", st.get("via", ""))}) raised {type(e).__name__}: {e}',
+                                        errsig=('C18|parse' if st['op'] == 'read' else f'C18|history|{st["op"]}-{st.get("kind", "")}-raised|{type(e).__name__}'))))
+            break
+    return frames
+
+
+def observe_impl(case):
+    return run_history(case)[-1]['obs']
 
 
 def cleanup():
@@ -461,6 +652,13 @@ def shrink_absent(case, exc):
         if observe_impl(trial).get('raise') == exc:
             cur = trial
     return cur
+
+
+def z_now(case):
+    """Z of the current state: set through the API, else from ZERR, else none"""
+    if 'z_now' in case:
+        return case['z_now']
+    return case['z'] if case['present']['zerr'] else None
 
 
 def absent(case):
@@ -517,12 +715,19 @@ def _evaluate(ctx, cases):
     for s in ('total', 'values', 'ops', 'atoms'):
         ctx.stream(s)
     # --- implementation --------------------------------------------------------------------------
-    obs_all = [observe_impl(c) for c in cases]
+    frames = []
+    for c in cases:
+        frames += run_history(c)
+    cases = [fr['case'] for fr in frames]
+    obs_all = [fr['obs'] for fr in frames]
     reqs = []
     where = []
     parsed = []
     for ci, (case, obs) in enumerate(zip(cases, obs_all)):
         cif = None
+        if case is None:
+            parsed.append(None)
+            continue
         if 'text' in obs:
             try:
                 cif = read_cif(obs['text'])
@@ -532,7 +737,7 @@ def _evaluate(ctx, cases):
         p = case['present']
         exp_atoms = expected_atoms(case)
         reqs.append(dict(p='C18', op='values', titl=(case['titl'].split() if p['titl'] else []),
-                         sum_formula='', cell=case['cell'], zerr=(case['z'] if p['zerr'] else None),
+                         sum_formula='', cell=case['cell'], zerr=z_now(case),
                          temp=(case['temp'] if p['temp'] else None), size=(case['size'] if p['size'] else None),
                          r1=(case['r1'] if p['rems'] else None), wr2=(case['wr2'] if p['rems'] else None),
                          goof=(case['goof'] if p['rems'] else None)))
@@ -560,42 +765,52 @@ def _evaluate(ctx, cases):
 
     # --- comparison ------------------------------------------------------------------------------
     for ci, (case, obs, cif) in enumerate(zip(cases, obs_all, parsed)):
+        fr = frames[ci]
+        hist = 'history' in fr['top']
+        sfx = ('|after=' + '+'.join(sorted({e.split(':')[0] for e in fr['after'].split('+')}))) if fr['after'] else ''
+        note = f' [export at step {fr["pos"]} of a history on one object, after: {fr["after"]}]' if fr['after'] else ''
+
+        def fail(sig, what, payload, kind='property', _sfx=sfx, _note=note):
+            ctx.fail(sig + _sfx, what + _note, payload, kind)
+        if case is None:
+            fail('C18|history|step-raised', obs['error'], dict(case=fr['top'], stream='total', actual=obs['error']), kind='correspondence')
+            continue
         p = case['present']
         ab = absent(case)
         abs_tag = 'absent=' + ('+'.join(ab) if ab else 'none')
-        key = [case['setting'], case['latt'], case['symm'], p, case['cell'], case['z'], case['unit'], case['fvars'],
+        key = [fr['after'], fr['pos'], case.get('z_now'), case['setting'], case['latt'], case['symm'], p, case['cell'], case['z'], case['unit'], case['fvars'],
                [(a['name'], a['xyz'], a['code'], a['u'], a['part'], a['part_sof'], a['resi']) for a in case['atoms']], len(case['qpeaks'])]
         thirds = any(re.search(r'[1245]/[36]', s) for s in case['symm']) or abs(case['latt']) == 3
         ctx.count(key, nontrivial=bool(case['symm'] or ab or case['atoms']),
                   tags=['setting=' + case['setting'], 'latt=' + str(case['latt']), 'thirds/sixths' if thirds else 'halves/quarters only']
-                  + ['no-' + k for k in ab] + (['qpeaks'] if case['qpeaks'] else []) + [f'natoms={min(len(case["atoms"]), 5)}{"+" if len(case["atoms"]) > 5 else ""}'],
+                  + ['no-' + k for k in ab] + (['qpeaks'] if case['qpeaks'] else []) + (['after=' + fr['after']] if fr['after'] else []) + [f'natoms={min(len(case["atoms"]), 5)}{"+" if len(case["atoms"]) > 5 else ""}'],
                   sample=dict(setting=case['setting'], latt=case['latt'], symm=case['symm'][:2], absent=ab, natoms=len(case['atoms'])))
-        base = dict(case=case)
+        base = dict(case=fr['top'])
         if 'error' in obs:
-            ctx.fail('C18|parse', f'generated valid file not read as expected: {obs["error"]}', dict(base, stream='total', actual=obs['error']),
-                     kind='correspondence')
+            fail(obs.get('errsig', 'C18|parse'), f'generated valid file / history not processed as expected: {obs["error"]}',
+                 dict(base, stream='total', actual=obs['error']), kind='correspondence')
             continue
         want_names = [a['name'] for a in case['atoms']] + [q['name'] for q in case['qpeaks']]
         if obs['names'] != want_names:
-            ctx.fail('C18|parse|atoms', f'generated valid file: atoms {obs["names"]} read, {want_names} written',
+            fail('C18|parse|atoms', f'generated valid file: atoms {obs["names"]} read, {want_names} written',
                      dict(base, stream='total', actual=obs['names'], expected=want_names), kind='correspondence')
             continue
         # ---- total ------------------------------------------------------------------------------
         vals = by_case[ci]['values'][0][1]
         if 'raise' in obs:
-            small = shrink_absent(case, obs['raise'])
-            sab = absent(small)
+            small = fr['top'] if hist else shrink_absent(case, obs['raise'])
+            sab = absent(case if hist else small)
             names = dict(titl='title text')
-            ctx.fail(f'C18|total|absent={"+".join(sab) if sab else "none"}|{obs["raise"]}',
+            fail(f'C18|total|absent={"+".join(sab) if sab else "none"}|{obs["raise"]}',
                      f'to_cif() raised {obs["raise"]} ({obs["raise_msg"]}) for a valid file ' +
                      ('without ' + ', '.join(names.get(k, k.upper()) for k in sab) if sab else 'with every optional instruction present'),
                      dict(case=small, stream='total', expected='a CIF file', actual=obs['raise'], model=vals['model']))
             continue
         if isinstance(vals['model'], dict) and 'raise' in vals['model']:
-            ctx.fail('C18|total|model-raises', f'implementation writes a file, the model raises {vals["model"]["raise"]}',
+            fail('C18|total|model-raises', f'implementation writes a file, the model raises {vals["model"]["raise"]}',
                      dict(base, stream='total', actual='file', model=vals['model']), kind='correspondence')
         if cif is None:
-            ctx.fail('C18|cif|malformed', f'the written file is not a readable CIF: {obs.get("malformed")}',
+            fail('C18|cif|malformed', f'the written file is not a readable CIF: {obs.get("malformed")}',
                      dict(base, stream='total', expected='data items and loops', actual=obs.get('malformed')))
             continue
         it = cif['items']
@@ -607,29 +822,29 @@ def _evaluate(ctx, cases):
             pay = dict(base, stream='values', tag=tag, expected=str(spec[tag]), actual=got, model=str(model.get(tag)))
             if got is None or not num_eq(got, spec[tag]):
                 extra = '|no-zerr' if tag == '_cell_formula_units_Z' and not p['zerr'] else ''
-                ctx.fail(f'C18|values|{tag}{extra}', f'{tag} is {got!r}, the model has {float(spec[tag])}', pay)
+                fail(f'C18|values|{tag}{extra}', f'{tag} is {got!r}, the model has {float(spec[tag])}', pay)
             elif not num_eq(got, model.get(tag)):
-                ctx.fail(f'C18|values|{tag}|model', f'{tag} is {got!r}, the Lean model gives {model.get(tag)}', pay, kind='correspondence')
+                fail(f'C18|values|{tag}|model', f'{tag} is {got!r}, the Lean model gives {model.get(tag)}', pay, kind='correspondence')
         got = it.get('_cell_measurement_temperature')
         want_t = (F(str(case['temp'])) + F('273.15')) if p['temp'] else None
         pay = dict(base, stream='values', tag='_cell_measurement_temperature', expected=str(want_t), actual=got,
                    model=str(model.get('_cell_measurement_temperature')))
         ok = got is not None and (num_eq(got, want_t, 5.1e-4, 0) if want_t is not None else got in ('?', '.'))
         if not ok:
-            ctx.fail('C18|values|temperature|' + ('TEMP' if p['temp'] else 'no-TEMP'),
+            fail('C18|values|temperature|' + ('TEMP' if p['temp'] else 'no-TEMP'),
                      f'_cell_measurement_temperature is {got!r}; TEMP {"is " + str(case["temp"]) + " C" if p["temp"] else "is absent"}', pay)
         elif not num_eq(got, model.get('_cell_measurement_temperature'), 1e-9):
-            ctx.fail('C18|values|temperature|model', f'temperature {got!r}, Lean model {model.get("_cell_measurement_temperature")}', pay,
+            fail('C18|values|temperature|model', f'temperature {got!r}, Lean model {model.get("_cell_measurement_temperature")}', pay,
                      kind='correspondence')
         # sum formula: UNIT / Z per SFAC element
-        zz = case['z'] if p['zerr'] else 1
+        zz = z_now(case) or 1
         want_f = {}
         for el, n in zip(case['sfac'], case['unit']):
             want_f[el.upper()] = want_f.get(el.upper(), 0) + F(str(n)) / zz
         got = it.get('_chemical_formula_sum')
         gf = parse_formula(got) if got is not None else None
         if gf is None or set(gf) != set(want_f) or any(not core.close(gf[k], want_f[k], 1e-12, 2e-5) for k in want_f):
-            ctx.fail('C18|values|sum_formula', f'_chemical_formula_sum is {got!r}, UNIT/Z is { {k: float(v) for k, v in want_f.items()} }',
+            fail('C18|values|sum_formula', f'_chemical_formula_sum is {got!r}, UNIT/Z is { {k: float(v) for k, v in want_f.items()} }',
                      dict(base, stream='values', tag='_chemical_formula_sum', expected={k: str(v) for k, v in want_f.items()}, actual=got))
         # ---- operators --------------------------------------------------------------------------
         lp = find_loop(cif, '_space_group_symop_operation_xyz')
@@ -643,7 +858,7 @@ def _evaluate(ctx, cases):
                 break
             exp_ops.append(tuple((rows[i][0], rows[i][1], rows[i][2], sn[i]) for i in range(3)))
         if bad_model is not None:
-            ctx.fail('C18|parse|symmcards', f'operator of the model with a translation that is no k/48: {bad_model}',
+            fail('C18|parse|symmcards', f'operator of the model with a translation that is no k/48: {bad_model}',
                      dict(base, stream='ops', actual=str(bad_model)), kind='correspondence')
         else:
             got_ops = [parse_xyz(s) for s in strs]
@@ -651,16 +866,16 @@ def _evaluate(ctx, cases):
             written = [parse_xyz(s) for s in ['X, Y, Z'] + case['symm']]
             missing_written = [s for s, o in zip(['X, Y, Z'] + case['symm'], written) if o not in set(exp_ops)]
             if missing_written:
-                ctx.fail('C18|parse|symm', f'SYMM operators of the file not in the model\'s list: {missing_written}', opay, kind='correspondence')
+                fail('C18|parse|symm', f'SYMM operators of the file not in the model\'s list: {missing_written}', opay, kind='correspondence')
             unparsable = [s for s, o in zip(strs, got_ops) if o is None]
             if unparsable:
-                ctx.fail('C18|ops|unparsable', f'operator strings that are no CIF xyz strings: {unparsable[:3]}', opay)
+                fail('C18|ops|unparsable', f'operator strings that are no CIF xyz strings: {unparsable[:3]}', opay)
             else:
                 wrong = [s for s, o in zip(strs, got_ops) if o not in set(exp_ops)]
                 lost = [fmt_op(o) for o in set(exp_ops) - set(got_ops)]
                 if wrong or lost:
                     cls = classify_ops(wrong, lost, exp_ops)
-                    ctx.fail(f'C18|ops|{cls}', f'operator strings {wrong[:4]} denote none of the model\'s operators; '
+                    fail(f'C18|ops|{cls}', f'operator strings {wrong[:4]} denote none of the model\'s operators; '
                              f'model operators without a string: {lost[:4]}', opay)
             # element-wise against the driver
             for k, r in by_case[ci].get('symop', []):
@@ -670,13 +885,13 @@ def _evaluate(ctx, cases):
                 mod_d = dec_op(r['model_denotes'])
                 pay = dict(base, stream='ops', op_index=k, expected=fmt_op(exp_ops[k]), actual=s, model=r['model'])
                 if (ref is None) != (spec_d is None) or (ref is not None and op_key(ref) != op_key(spec_d)):
-                    ctx.fail('C18|ops|reference-parsers-disagree', f'{s!r}: harness reference {ref}, Lean denoteCif {spec_d}', pay, kind='correspondence')
+                    fail('C18|ops|reference-parsers-disagree', f'{s!r}: harness reference {ref}, Lean denoteCif {spec_d}', pay, kind='correspondence')
                 if spec_d is not None and op_key(spec_d) != op_key(exp_ops[k]):
                     # property failure, reported above through the set comparison; classify only
                     pass
                 if mod_d is None or spec_d is None or op_key(mod_d) != op_key(spec_d):
                     if not (spec_d is not None and op_key(spec_d) != op_key(exp_ops[k]) and r['mode'] == 1):
-                        ctx.fail('C18|ops|model', f'operator {k}: implementation wrote {s!r}, the Lean model {r["model"]!r}', pay, kind='correspondence')
+                        fail('C18|ops|model', f'operator {k}: implementation wrote {s!r}, the Lean model {r["model"]!r}', pay, kind='correspondence')
                 ctx.dist['ops-text-identical' if r['model'] == s else 'ops-text-differs'] += 1
         # ---- atoms ------------------------------------------------------------------------------
         exp = expected_atoms(case)
@@ -685,24 +900,24 @@ def _evaluate(ctx, cases):
         dlp = find_loop(cif, '_atom_site_aniso_label')
         apay = dict(base, stream='atoms', expected=[e['label'] for e in exp])
         if alp is None:
-            ctx.fail('C18|atoms|no-loop', 'no _atom_site loop in the CIF', apay)
+            fail('C18|atoms|no-loop', 'no _atom_site loop in the CIF', apay)
             continue
         tags, rows = alp
         col = {t: i for i, t in enumerate(tags)}
         need = ['_atom_site_label', '_atom_site_type_symbol', '_atom_site_fract_x', '_atom_site_fract_y', '_atom_site_fract_z',
                 '_atom_site_occupancy', '_atom_site_disorder_group']
         if any(t not in col for t in need):
-            ctx.fail('C18|atoms|columns', f'_atom_site loop lacks {[t for t in need if t not in col]}', apay)
+            fail('C18|atoms|columns', f'_atom_site loop lacks {[t for t in need if t not in col]}', apay)
             continue
         got_labels = [r[col['_atom_site_label']] for r in rows]
         apay['actual'] = got_labels
         if sorted(got_labels) != sorted(e['label'] for e in exp):
             extra = [g for g in got_labels if g not in [e['label'] for e in exp]]
             cls = 'qpeak-listed' if any(g.upper().startswith('Q') for g in extra) else 'labels'
-            ctx.fail(f'C18|atoms|{cls}', f'atom loop lists {got_labels}, the non-Q-peak atoms are {[e["label"] for e in exp]}', apay)
+            fail(f'C18|atoms|{cls}', f'atom loop lists {got_labels}, the non-Q-peak atoms are {[e["label"] for e in exp]}', apay)
             continue
         if got_labels != [r['label'] for r in loops['model_atoms']]:
-            ctx.fail('C18|atoms|order|model', 'atom loop order differs from the model', dict(apay, model=[r['label'] for r in loops['model_atoms']]),
+            fail('C18|atoms|order|model', 'atom loop order differs from the model', dict(apay, model=[r['label'] for r in loops['model_atoms']]),
                      kind='correspondence')
         by_label = {r[col['_atom_site_label']]: r for r in rows}
         adp = {}
@@ -724,52 +939,52 @@ def _evaluate(ctx, cases):
             kindtag = ('aniso' if e['u'] else 'iso') + ('|part' if e['part'] else '') + ('|resi' if a['resi'] else '')
             ctx.dist['atom:' + kindtag] += 1
             if sr is None or mr is None:
-                ctx.fail('C18|atoms|model-row', f'no model/spec row for {e["label"]}', pay, kind='correspondence')
+                fail('C18|atoms|model-row', f'no model/spec row for {e["label"]}', pay, kind='correspondence')
                 continue
             if r[col['_atom_site_type_symbol']].upper() != e['el'].upper():
-                ctx.fail('C18|atoms|element', f'{e["label"]}: element {r[col["_atom_site_type_symbol"]]!r}, SFAC says {e["el"]}', pay)
+                fail('C18|atoms|element', f'{e["label"]}: element {r[col["_atom_site_type_symbol"]]!r}, SFAC says {e["el"]}', pay)
             for ax, c in zip('xyz', ('_atom_site_fract_x', '_atom_site_fract_y', '_atom_site_fract_z')):
                 i = 'xyz'.index(ax)
                 if not num_eq(r[col[c]], F(str(e['xyz'][i])) if not isinstance(e['xyz'][i], F) else e['xyz'][i], 1e-9):
-                    ctx.fail(f'C18|atoms|coord{"|fixed" if a["xyz"][i] > 4 else ""}', f'{e["label"]}: {ax} = {r[col[c]]!r}, the file has {a["xyz"][i]}', pay)
+                    fail(f'C18|atoms|coord{"|fixed" if a["xyz"][i] > 4 else ""}', f'{e["label"]}: {ax} = {r[col[c]]!r}, the file has {a["xyz"][i]}', pay)
                 elif not num_eq(r[col[c]], mr['xyz'][i], 1e-9):
-                    ctx.fail('C18|atoms|coord|model', f'{e["label"]}: {ax} = {r[col[c]]!r}, Lean model {mr["xyz"][i]}', pay, kind='correspondence')
+                    fail('C18|atoms|coord|model', f'{e["label"]}: {ax} = {r[col[c]]!r}, Lean model {mr["xyz"][i]}', pay, kind='correspondence')
             if e['occ'] is not None and not num_eq(r[col['_atom_site_occupancy']], e['occ'], 1e-7, 1e-9):
-                ctx.fail('C18|atoms|occupancy', f'{e["label"]}: occupancy {r[col["_atom_site_occupancy"]]!r}, the free-variable rule gives {float(e["occ"])}', pay)
+                fail('C18|atoms|occupancy', f'{e["label"]}: occupancy {r[col["_atom_site_occupancy"]]!r}, the free-variable rule gives {float(e["occ"])}', pay)
             try:
                 dg = int(r[col['_atom_site_disorder_group']])
             except ValueError:
                 dg = None
             if dg != e['part']:
-                ctx.fail('C18|atoms|disorder_group', f'{e["label"]}: disorder group {r[col["_atom_site_disorder_group"]]!r}, PART is {e["part"]}', pay)
+                fail('C18|atoms|disorder_group', f'{e["label"]}: disorder group {r[col["_atom_site_disorder_group"]]!r}, PART is {e["part"]}', pay)
             elif dg != mr['part']:
-                ctx.fail('C18|atoms|disorder_group|model', f'{e["label"]}: disorder group {dg}, Lean model {mr["part"]}', pay, kind='correspondence')
+                fail('C18|atoms|disorder_group|model', f'{e["label"]}: disorder group {dg}, Lean model {mr["part"]}', pay, kind='correspondence')
             cancels = bool(e['u']) and sum(e['u'][1:]) == 0
             if cancels:
                 ctx.dist['atom:Uij-cancel'] += 1
             if '_atom_site_adp_type' in col:
                 t = r[col['_atom_site_adp_type']]
                 if (t == 'Uani') != bool(e['u']):
-                    ctx.fail('C18|atoms|adp_type' + ('|Uij-cancel' if cancels else ''), f'{e["label"]}: adp type {t!r}, the atom has {"six" if e["u"] else "one"} U value(s)', pay)
+                    fail('C18|atoms|adp_type' + ('|Uij-cancel' if cancels else ''), f'{e["label"]}: adp type {t!r}, the atom has {"six" if e["u"] else "one"} U value(s)', pay)
                 elif (t == 'Uani') != mr['aniso']:
-                    ctx.fail('C18|atoms|adp_type|model', f'{e["label"]}: adp type {t!r}, Lean model aniso={mr["aniso"]}', pay, kind='correspondence')
+                    fail('C18|atoms|adp_type|model', f'{e["label"]}: adp type {t!r}, Lean model aniso={mr["aniso"]}', pay, kind='correspondence')
             if e['u']:
                 gu = adp.get(e['label'])
                 pay['actual_adp'] = gu
                 if gu is None:
-                    ctx.fail('C18|adp|missing' + ('|Uij-cancel' if cancels else ''), f'{e["label"]} is anisotropic but has no row in the ADP loop', pay)
+                    fail('C18|adp|missing' + ('|Uij-cancel' if cancels else ''), f'{e["label"]} is anisotropic but has no row in the ADP loop', pay)
                 else:
                     if any(not num_eq(g, F(str(w)), 1e-9) for g, w in zip(gu, e['u'])):
-                        ctx.fail('C18|adp|values', f'{e["label"]}: Uij {gu}, the file has {e["u"]}', pay)
+                        fail('C18|adp|values', f'{e["label"]}: Uij {gu}, the file has {e["u"]}', pay)
                     elif e['label'] not in madp or any(not num_eq(g, w, 1e-9) for g, w in zip(gu, madp[e['label']]['u'])):
-                        ctx.fail('C18|adp|values|model', f'{e["label"]}: Uij {gu}, Lean model {madp.get(e["label"])}', pay, kind='correspondence')
+                        fail('C18|adp|values|model', f'{e["label"]}: Uij {gu}, Lean model {madp.get(e["label"])}', pay, kind='correspondence')
                     if e['label'] not in sadp:
-                        ctx.fail('C18|adp|spec', f'{e["label"]}: spec has no ADP row', pay, kind='correspondence')
+                        fail('C18|adp|spec', f'{e["label"]}: spec has no ADP row', pay, kind='correspondence')
             elif e['label'] in adp:
-                ctx.fail('C18|adp|extra', f'{e["label"]} is isotropic but listed in the ADP loop', pay)
+                fail('C18|adp|extra', f'{e["label"]} is isotropic but listed in the ADP loop', pay)
         extra = [l for l in adp if l not in by_label]
         if extra:
-            ctx.fail('C18|adp|unknown-label', f'ADP loop rows for labels that are not in the atom loop: {extra}', apay)
+            fail('C18|adp|unknown-label', f'ADP loop rows for labels that are not in the atom loop: {extra}', apay)
 
 
 def fmt_op(o):
@@ -816,8 +1031,9 @@ def run(ctx):
     ctx.rule = ('generated files: 35 tabulated space-group settings (P/A/B/C/I/F/R, translations 1/2 1/3 2/3 1/4 3/4 1/6 5/6, fractions and '
                 'dyadic decimals, upper/lower case) plus random operators (8 row types x 8 translations, before/after, any LATT); each of '
                 'ZERR, TEMP, SIZE, ACTA, WGHT, REM residuals, title text present or absent; 0..10 atoms iso/aniso/riding, PART (with sof), '
-                'RESI, AFIX, fixed coordinates 10+p, free-variable occupancies, Q-peaks. distinct by full description; non-trivial = has '
-                'SYMM operators, an absent optional instruction or atoms')
+                'RESI, AFIX, free-variable occupancies, Q-peaks; single read+export and histories on one object (re-read by string/file/'
+                'reload, API edits of element/sof/Uij/Z/UNIT/delete, repeated export, a second object in between), every export compared. '
+                'distinct by full description and position in the history; non-trivial = has SYMM operators, an absent optional instruction or atoms')
     ctx.assumptions = ['translations of the model are within 1e-9 of a multiple of 1/48 (checked per case)',
                        'SYMM translations are written as fractions (decimals only for halves and quarters)',
                        'atom labels unique',
@@ -840,10 +1056,19 @@ def run(ctx):
     c = make_case(ctx.rng, setting=SETTINGS[3], flags={})
     c['atoms'] = [dict(name='C1', sfac=1, xyz=[0.1, 0.2, 0.3], code=11.0, u=[0.02] + list(CANCELLING[0]), part=0, part_sof=None, resi=0, afix=False)]
     cases.append(c)
-    n = ctx.budget(1500, 25000)
+    # histories on one object: a fixed set of shapes first, then random ones
+    for rounds in (['reread'], ['edit:element'], ['edit:Z'], ['edit:unit'], ['edit:sof'], ['edit:uvals'], ['edit:delete'], ['edit:to_iso'],
+                   ['again'], ['other'], ['reread', 'edit', 'reread'], ['edit', 'again', 'edit']):
+        for _ in range(2):
+            cases.append(make_history(ctx.rng, rounds=list(rounds), flags={} if ctx.rng.random() < 0.5 else None))
+    thorough = ctx.tier == 'thorough'
+    n = 25000 if thorough else (4000 if ctx.escalated else 1200)
+    nh = 5000 if thorough else (1000 if ctx.escalated else 300)
     for _ in range(n):
         cases.append(make_case(ctx.rng))
-    if ctx.tier == 'thorough' or ctx.escalated:
+    for _ in range(nh):
+        cases.append(make_history(ctx.rng))
+    if ctx.tier == 'thorough':
         # every row type x every translation of the quantifier x before/after, under every LATT
         for latt in [1, -1, 2, -2, 3, -3, 4, -4, 5, 6, 7, -7]:
             for t in TRANSLATIONS:
@@ -857,5 +1082,5 @@ def run(ctx):
                 c.update(setting='grid', latt=latt, symm=symm)
                 cases.append(c)
         ctx.extra['grid'] = 'every row type x every translation of the quantifier under LATT +-1..7'
-    for i in range(0, len(cases), 400):
-        evaluate(ctx, cases[i:i + 400])
+    for i in range(0, len(cases), 300):
+        evaluate(ctx, cases[i:i + 300])
